@@ -226,6 +226,10 @@ let impl_clauses (r : msrec) : string list =
    | _ -> l := "Rebuild:missing" :: !l);
   if r.rp <> "ok-eq" then l := ("Reparse:" ^ r.rp) :: !l;
   if r.sn <> "ok" then l := ("Sane:" ^ r.sn) :: !l;
+  (let lim = split r.lim in
+   let lv = kv lim "lv" and gv = kv lim "gv" in
+   if lv <> "" && lv <> "ok" then l := ("CheckLocalValidity:" ^ lv) :: !l;
+   if gv <> "" && gv <> "ok" then l := ("CheckGlobalValidity:" ^ gv) :: !l);
   List.rev !l
 
 let lim_int (lim : string list) k = match kv lim k with "-" | "" -> None | s -> int_of_string_opt s
@@ -242,30 +246,38 @@ let tie_checks (o : outrec) (c : ctx) (m : ms) (r : msrec) : string list =
   (match lim_int lim "size" with
    | Some e -> if !cur_mode <> "string" && e <> sl then d := Printf.sprintf "script_len model=%d script_size()=%d" sl e :: !d
    | None -> ());
-  (* the execution figures are NOT ties: the model's are static over-approximations of the true
-     maxima, the implementation's are its own estimates (C09 judges those); only recorded *)
-  (match lim_int lim "ops" with
-   | Some e -> if c <> Tap && e > int_of_n (ops_bound kkf m) then bump "info_impl_figure_above_model_bound/ops"
+  (* the execution figures: the validator recomputes the library's own figures (ExtData) from the
+     output's structure with the C09 model; they must equal what the library attached *)
+  let on = function Some x -> Some (int_of_n x) | None -> None in
+  let cmp name model impl = match impl with
+    | Some e -> if model <> Some e then
+        d := Printf.sprintf "%s model=%s impl=%d" name (match model with Some x -> string_of_int x | None -> "none") e :: !d
+    | None -> if model <> None then bump ("info_model_has_figure_impl_none/" ^ name) in
+  cmp "sat_op_count" (on (exec_ops c kkf m)) (lim_int lim "ops");
+  cmp "witness_elements" (match on (wit_count c kkf m) with Some x -> Some (x + 1) | None -> None) (lim_int lim "wit");
+  cmp "stack_count" (on (stack_count c kkf m)) (lim_int lim "stk");
+  (match c with
+   | Bare | Legacy -> cmp "script_sig_size" (on (ssig_bytes c kkf m)) (lim_int lim "ssz")
+   | _ -> ());
+  (match lim_int lim "pkcost" with
+   | Some e -> if e <> int_of_n (pk_cost_of c kkf m) then bump "info_pk_cost_of_C09_model_differs_from_impl(C09's tie)"
    | None -> ());
-  (match lim_int lim "wit" with
-   | Some e -> if e > int_of_n (wit_items m) + 1 then bump "info_impl_figure_above_model_bound/witness_items"
-   | None -> ());
-  (match lim_int lim "stk" with
-   | Some e -> if e > int_of_n (stack_bound kkf m) then bump "info_impl_figure_above_model_bound/stack"
+  (match lim_int lim "size" with
+   | Some e -> if e <> int_of_n (lib_script_size c kkf m) then d := Printf.sprintf "script_size() model=%d impl=%d" (int_of_n (lib_script_size c kkf m)) e :: !d
    | None -> ());
   (match lim_int lim "h" with
    | Some e -> if e <> int_of_n (ms_height m) then d := Printf.sprintf "height model=%d impl=%d" (int_of_n (ms_height m)) e :: !d
    | None -> ());
   (let tl = ms_tl m in
    let b x = if x then "1" else "0" in
-   let s = b tl.csv_h ^ b tl.csv_t ^ b tl.cltv_h ^ b tl.cltv_t ^ b tl.tl_comb in
+   let s = b tl.csv_h ^ b tl.csv_t ^ b tl.cltv_h ^ b tl.cltv_t ^ b tl.tl_comb0 in
    let e = kv lim "tl" in
    if e <> "" && e <> s then d := Printf.sprintf "timelock_info model=%s impl=%s" s e :: !d);
   (* the library's own lift of the output must be equivalent to the model's lift *)
   (if String.length r.lift >= 3 && String.sub r.lift 0 3 <> "err" && r.lift <> "panic" then begin
       incr n_lift;
       match (try Some (parse_sem (split r.lift)) with _ -> None) with
-      | Some sp -> if not (equivb (lift_ms m) sp) then d := "lift: model lift_ms not equivalent to Liftable::lift" :: !d
+      | Some sp -> if not (equiv_dec (lift_ms m) sp) then d := "lift: model lift_ms not equivalent to Liftable::lift" :: !d
       | None -> d := "lift: cannot parse the library's lifted policy" :: !d
     end);
   List.rev !d
@@ -301,14 +313,26 @@ let ctx_reason (c : ctx) (ms_list : ms list) : string =
 
 let cur_reason = ref ""
 
+let cur_figures = ref "-"
+let figures (c : ctx) (kkf : n -> kkind) (m : ms) : string =
+  let o = function Some x -> string_of_int (int_of_n x) | None -> "none" in
+  Printf.sprintf "script_len=%d;pk_cost=%d;executed_opcodes=%s;witness_items+1=%s;stack=%s;scriptsig_bytes=%s;limits(%s):size<=%s,ops<=%s,items<=%s,stack<=%s,scriptsig<=%s"
+    (int_of_n (script_len kkf m)) (int_of_n (pk_cost_of c kkf m)) (o (exec_ops c kkf m))
+    (match wit_count c kkf m with Some x -> string_of_int (int_of_n x + 1) | None -> "none")
+    (o (stack_count c kkf m)) (o (ssig_bytes c kkf m))
+    (match c with Bare -> "bare" | Legacy -> "legacy" | Segwitv0 -> "segwitv0" | Tap -> "tap")
+    (match c with Bare -> "10000" | Legacy -> "520" | Segwitv0 -> "3600" | Tap -> "4000000")
+    (match c with Tap -> "-" | _ -> "201") (match c with Segwitv0 -> "100" | _ -> "-")
+    (match c with Segwitv0 | Tap -> "1000" | _ -> "-") (match c with Legacy -> "1650" | _ -> "-")
+
 let report_bad (o : outrec) (clauses : string list) (world : string) (mstoks : string) (str : string) =
   incr n_bad;
   let c0 = List.hd clauses in
   let c0 = if c0 = "ClCtx" then "ClCtx." ^ !cur_reason else c0 in
   let key = Printf.sprintf "%s:%s" c0 (match fst (ctx_of o) with Bare -> "bare" | Legacy -> "legacy" | Segwitv0 -> "segwitv0" | Tap -> "tap") in
   let key = String.map (fun ch -> if ch = ' ' then '_' else ch) key in
-  Printf.printf "BAD C08 | key=%s | id=%s | mode=%s | shape=%s | api=%s | ctx=%s | desc=%s | clauses=%s | world=%s | pol=%s | polstr=%s | ms=%s | str=%s\n"
-    key o.oid !cur_mode !cur_shape o.api o.octx o.desc (String.concat "," clauses) world !cur_pol !cur_polstr mstoks str
+  Printf.printf "BAD C08 | key=%s | id=%s | mode=%s | shape=%s | api=%s | ctx=%s | desc=%s | clauses=%s | figures=%s | world=%s | pol=%s | polstr=%s | ms=%s | str=%s\n"
+    key o.oid !cur_mode !cur_shape o.api o.octx o.desc (String.concat "," clauses) !cur_figures world !cur_pol !cur_polstr mstoks str
 
 let finish_out (o : outrec) =
   incr n_ok;
@@ -342,7 +366,7 @@ let finish_out (o : outrec) =
         incr n_lift;
         let model = tr_policy ik true (List.map (fun (_, m, _) -> m) leaves) in
         match (try Some (parse_sem (split o.dlift)) with _ -> None) with
-        | Some sp -> if not (equivb model sp) then begin incr n_diff;
+        | Some sp -> if not (equiv_dec model sp) then begin incr n_diff;
             Printf.printf "DIFF C08 | id=%s | api=%s | ctx=%s | what=lift(tr): model not equivalent to Liftable::lift | ms=%s\n" o.oid o.api o.octx o.dstr end
         | None -> ()
       end);
@@ -350,11 +374,14 @@ let finish_out (o : outrec) =
       let lv = List.map (fun (_, m, _) -> m) leaves in
       let world =
         if List.mem ClEquiv failing then
-          (match find_diff (lift_c pol) (tr_policy ik o.inpol lv) with Some f -> world_str f | None -> "-")
+          (if small_enough (lift_c pol) (tr_policy ik o.inpol lv) then
+             (match find_diff (lift_c pol) (tr_policy ik o.inpol lv) with Some f -> world_str f | None -> "-")
+           else "structural-test-undecided(policy-too-large-for-truth-table)")
         else if List.mem ClSemSigned failing then
           (match List.find_map (fun m -> find_sigless (lift_ms m)) lv with Some f -> world_str f | None -> "-")
         else "-" in
       cur_reason := ctx_reason Tap lv;
+      cur_figures := String.concat " ; " (List.map (fun m -> figures Tap (kk_of_list o.kk) m) (match lv with a :: b :: c :: _ -> [a; b; c] | l -> l));
       report_bad o all world (String.concat " ; " (List.map (fun (r, _, _) -> Printf.sprintf "@%d %s" r.depth r.toks) leaves)) o.dstr
     end;
     if !coq_budget_tr > 0 || (all <> [] && !coq_budget_bad > 0) then begin
@@ -379,17 +406,21 @@ let finish_out (o : outrec) =
       if o.drp = "ok-alias" then bump "desc_reparse_alias(pkh)";
       let all = List.map clause_name failing @ impl in
       incr n_valid;
-      n_worlds := !n_worlds + List.length (worlds_of (lift_c pol) (lift_ms m));
+      if small_enough (lift_c pol) (lift_ms m) then n_worlds := !n_worlds + List.length (worlds_of (lift_c pol) (lift_ms m))
+      else bump "equivalence_by_structural_test";
       List.iter (fun s -> incr n_diff; Printf.printf "DIFF C08 | id=%s | api=%s | ctx=%s | what=%s | ms=%s\n" o.oid o.api o.octx s r.toks)
         (tie_checks o c m r);
       if all <> [] then begin
         let world =
           if List.mem ClEquiv failing then
-            (match find_diff (lift_c pol) (lift_ms m) with Some f -> world_str f | None -> "-")
+            (if small_enough (lift_c pol) (lift_ms m) then
+               (match find_diff (lift_c pol) (lift_ms m) with Some f -> world_str f | None -> "-")
+             else "structural-test-undecided(policy-too-large-for-truth-table)")
           else if List.mem ClSemSigned failing then
             (match find_sigless (lift_ms m) with Some f -> world_str f | None -> "-")
           else "-" in
         cur_reason := ctx_reason c [m];
+        cur_figures := figures c (kk_of_list o.kk) m;
         report_bad o all world r.toks r.str
       end;
       if !samples_left > 0 && o.api = "compile" then begin
@@ -488,6 +519,7 @@ let () =
              | Failure s -> incr n_diff; Printf.printf "DIFF C08 | id=%s | api=%s | ctx=%s | what=protocol: failure (%s) | ms=-\n" o.oid o.api o.octx s);
             cur := None; cur_ms := None
           | None -> ())
+       | "LIMBOUND" | "LIMSKIP" -> print_endline line
        | "GENHIST" | "END" -> ()
        | _ -> ()
      done
